@@ -105,10 +105,14 @@ class _ScandirWrap:
 
 
 class _StatWrap:
-    def __init__(self, st, ctime_ns):
+    def __init__(self, st, ctime_ns=None, mtime_s=None):
         self._st = st
-        self.st_ctime_ns = ctime_ns
-        self.st_ctime = ctime_ns / 1e9
+        if ctime_ns is not None:
+            self.st_ctime_ns = ctime_ns
+            self.st_ctime = ctime_ns / 1e9
+        if mtime_s is not None:
+            self.st_mtime = float(mtime_s)
+            self.st_mtime_ns = int(mtime_s) * 10**9
 
     def __getattr__(self, name):
         return getattr(self._st, name)
@@ -130,6 +134,11 @@ class SimFS:
         self.short_writes = short_writes
         self.buffer_size = buffer_size
         self.ctimes: dict = {}  # abspath -> ns, consulted by Path.stat
+        # file modification times as a seam: with coarse_mtime the timestamp of a write is a virtual clock that
+        # the tape advances by 0 or 1 per write (coarse-granularity file systems: equal mtimes for quick rewrites)
+        self.coarse_mtime = False
+        self.mtimes: dict = {}
+        self.mtime_now = 1_700_000_000
         self.on_open_write = None  # callback(abspath, existed) when a file is opened for writing (ctimes)
         sim.fs = self
         install()
@@ -221,6 +230,9 @@ def _open(file, mode="r", buffering=-1, encoding=None, errors=None, newline=None
     raw = SimRaw(fs, p, rel, raw_mode)
     if fs.on_open_write is not None:
         fs.on_open_write(p, existed)
+    if fs.coarse_mtime:
+        fs.mtime_now += fs.sim.tape.pick([0, 0, 1], "mtime-step")
+        fs.mtimes[p] = fs.mtime_now
     bs = fs.buffer_size or io.DEFAULT_BUFFER_SIZE
     if buffering == 0:
         if "b" not in mode:
@@ -271,6 +283,8 @@ def _replace(src, dst, *, src_dir_fd=None, dst_dir_fd=None):
             sp = os.path.abspath(os.fspath(src))
             if sp in fs.ctimes:
                 fs.ctimes[p] = fs.ctimes.pop(sp)
+            if sp in fs.mtimes:
+                fs.mtimes[p] = fs.mtimes.pop(sp)  # rename keeps the modification time
     return _real["replace"](src, dst, src_dir_fd=src_dir_fd, dst_dir_fd=dst_dir_fd)
 
 
@@ -309,10 +323,12 @@ def _scandir(path="."):
 def _path_stat(self, *, follow_symlinks=True):
     st = _real["path_stat"](self, follow_symlinks=follow_symlinks)
     sim = context.CURRENT
-    if sim is not None and sim.fs is not None and sim.fs.ctimes:
-        c = sim.fs.ctimes.get(os.path.abspath(os.fspath(self)))
-        if c is not None:
-            return _StatWrap(st, c)
+    if sim is not None and sim.fs is not None and (sim.fs.ctimes or sim.fs.mtimes):
+        ap = os.path.abspath(os.fspath(self))
+        c = sim.fs.ctimes.get(ap)
+        m = sim.fs.mtimes.get(ap)
+        if c is not None or m is not None:
+            return _StatWrap(st, c, m)
     return st
 
 
